@@ -1,17 +1,676 @@
-//! C23 (skeleton; dump mode only for now)
+//! C23 — standard-library inverse conversions round-trip.
+//!
+//! Modes
+//!   --dump-ast        print the S-expressions of the items translated by tools/gen_nbt_functions.py
+//!   (default)         generate cases, run the real interpreter, write requests / answers / oracle failures
+//!
+//! Case kinds (replay / corpus line = the text after the kind, see `Case::text`):
+//!   temp c2k|k2c|f2k|k2f <literal>      temperature scales (numbat code; model at Float, bit-exact)
+//!   unix <t_ns> <variant>               Unix time <-> DateTime (variant 0..3 = unix_s quantity, _s, _ms, _µs)
+//!   unixn <integer µs>                  unixtime_µs(from_unixtime_µs(n)) = n
+//!   julian <t_ns>                       Julian date <-> DateTime
+//!   julian-days <literal>               julian_date(from_julian_date(x days)) = x days
+//!   fn <pair index> <dir 0|1> <literal> trigonometric / hyperbolic / exponential / logarithmic inverses (libm; no model)
+//!   mixed <value literal> <value unit> <unit,unit,...>   unit_list: parts add up, all but the last are whole
+//!
+//! Oracle (on the implementation, independent of the Lean model), with explicit tolerances (eps = 2^-52):
+//!   temp    |g(f(x)) - x| <= 8 eps (|x| + 460)              (offsets 273.15 / 459.67 are added and removed)
+//!   unix    |from_unixtime(unixtime(t)) - t| < 1 µs (+ 2 ulp of the µs count beyond 2^53 µs), and the result is
+//!           t truncated toward zero; _ms/_s variants: < 1 ms / 1 s (+ the same slop); unixn: exact for |n| < 2^53
+//!   julian  |Δ| <= 2 ulp(jd in seconds) + 1 ns   (the Julian date is an f64 number of seconds, ~2e11 s today)
+//!   fn      |g(f(x)) - x| <= 1e-9 max(1, |x|) on the stated domain (margins keep the conditioning below 1e6)
+//!   mixed   parts non-empty, |Σ parts - value| <= 8 n eps |value| (base units), every part but the last has an
+//!           integer value in its own unit
+//!
+//! Model requests (driver `drv_c23`):
+//!   fc|tc|ff|tf <bits>             Gen/NbtFunctions at Float with kelvin := 1.0          -> ok <bits>
+//!   unixus <ns>                    `_unixtime_µs`                                         -> ok <bits>
+//!   fromunixus <bits> <zone>       `_from_unixtime_µs`                                    -> ok <ns> <zone> | err dt
+//!   diff <a_ns> <b_ns>             julian_date = dt - epoch                               -> ok <bits>
+//!   add <t_ns> <zone> <bits>       from_julian_date = epoch + jd                          -> ok <ns> <zone> | err ..
+//!   mixed <V m e m e> <u m e>...   Gen `_mixed_unit_list` at Rat (exact)                  -> ok <k1> <k2> ... (whole counts)
+//!           emitted only when no exact quotient is within 1e-6 (relative) of an integer, so that f64 noise in the
+//!           implementation cannot move a truncation across an integer.
+
+use numbat::module_importer::BuiltinModuleImporter;
+use numbat::resolver::CodeSource;
+use numbat::value::Value;
+use numbat::verif::{c19 as hook19, c23 as hook23};
+use numbat::{Context, InterpreterResult, InterpreterSettings, NumbatError, RuntimeErrorKind};
 use nvh::*;
+use std::collections::BTreeMap;
 
 pub const ITEMS: &[(&str, &[&str])] = &[
-    ("physics::temperature_conversion", &["_offset_celsius", "from_celsius", "°C", "celsius", "_offset_fahrenheit", "_scale_fahrenheit", "from_fahrenheit", "°F", "fahrenheit"]),
+    (
+        "physics::temperature_conversion",
+        &["_offset_celsius", "from_celsius", "°C", "celsius", "_offset_fahrenheit", "_scale_fahrenheit", "from_fahrenheit", "°F", "fahrenheit"],
+    ),
     ("core::functions", &["trunc_in"]),
     ("core::mixed_units", &["_zero_length", "_mixed_unit_list"]),
 ];
+
+const NS: i128 = 1_000_000_000;
+const EPS: f64 = 2.220446049250313e-16;
+
+/// (forward, inverse, domain lo, hi of x for inverse(forward(x)) = x, domain of y for forward(inverse(y)) = y)
+const PAIRS: &[(&str, &str, f64, f64, f64, f64)] = &[
+    ("sin", "asin", -1.5697, 1.5697, -0.999999, 0.999999),
+    ("cos", "acos", 0.001, 3.1405, -0.999999, 0.999999),
+    ("tan", "atan", -1.5697, 1.5697, -1.0e6, 1.0e6),
+    ("sinh", "asinh", -700.0, 700.0, -1.0e300, 1.0e300),
+    ("cosh", "acosh", 0.001, 700.0, 1.000001, 1.0e300),
+    ("tanh", "atanh", -7.0, 7.0, -0.999999, 0.999999),
+    ("exp", "ln", -700.0, 700.0, 1.0e-300, 1.0e300),
+    ("exp", "log", -700.0, 700.0, 1.0e-300, 1.0e300),
+];
+
+// ---------------------------------------------------------------- evaluation
+
+#[derive(Clone, Debug, PartialEq)]
+enum R {
+    Dt(i128, String),
+    Q(u64, u64),
+    L(Vec<(u64, u64, String)>),
+    S(String),
+    Err(String),
+    Other,
+}
+
+impl R {
+    fn wire(&self) -> String {
+        match self {
+            R::Dt(ns, z) => format!("ok {} {}", ns, z),
+            R::Q(b, _) => format!("ok {:016x}", b),
+            R::L(l) => format!("ok list {}", l.len()),
+            R::S(s) => format!("ok {:?}", s),
+            R::Err(e) => format!("err {}", e),
+            R::Other => "other".into(),
+        }
+    }
+    fn base(&self) -> Option<f64> {
+        if let R::Q(b, _) = self {
+            Some(f64::from_bits(*b))
+        } else {
+            None
+        }
+    }
+}
+
+struct Impl {
+    base: Context,
+    ctx: Context,
+}
+
+impl Impl {
+    fn new() -> Impl {
+        let mut ctx = Context::new(BuiltinModuleImporter::default());
+        ctx.load_currency_module_on_demand(false);
+        let _ = ctx.interpret("use prelude", CodeSource::Internal).expect("prelude");
+        Impl { base: ctx.clone(), ctx }
+    }
+    fn reset(&mut self) {
+        self.ctx = self.base.clone();
+    }
+    fn eval(&mut self, code: &str) -> R {
+        let ctx = &mut self.ctx;
+        let r = catch(std::panic::AssertUnwindSafe(|| {
+            let mut settings = InterpreterSettings {
+                print_fn: Box::new(|_| {}),
+            };
+            match ctx.interpret_with_settings(&mut settings, code, CodeSource::Internal) {
+                Ok((_s, InterpreterResult::Value(v))) => {
+                    if let Some((ns, z)) = hook19::datetime_parts(&v) {
+                        R::Dt(ns, z)
+                    } else if let Some((b, p)) = hook19::quantity_bits(&v) {
+                        R::Q(b, p)
+                    } else if let Some(l) = hook23::list_quantities(&v) {
+                        R::L(l)
+                    } else if let Value::String(s) = &v {
+                        R::S(s.to_string())
+                    } else {
+                        R::Other
+                    }
+                }
+                Ok((_s, InterpreterResult::Continue)) => R::Other,
+                Err(e) => R::Err(match &*e {
+                    NumbatError::RuntimeError(re) => match &re.kind {
+                        RuntimeErrorKind::DurationOutOfRange => "dur".into(),
+                        RuntimeErrorKind::DateTimeOutOfRange => "dt".into(),
+                        other => format!("runtime:{}", other.to_string().chars().take(70).collect::<String>()),
+                    },
+                    NumbatError::TypeCheckError(t) => format!("typecheck:{}", t.to_string().chars().take(70).collect::<String>()),
+                    other => format!("other:{}", other.to_string().chars().take(70).collect::<String>()),
+                }),
+            }
+        }));
+        match r {
+            Ok(x) => x,
+            Err(p) => R::Err(format!("panic:{}", p)),
+        }
+    }
+}
+
+// ---------------------------------------------------------------- civil time
+
+fn civil_from_days(z: i64) -> (i64, u32, u32) {
+    let z = z + 719468;
+    let era = if z >= 0 { z } else { z - 146096 } / 146097;
+    let doe = (z - era * 146097) as u64;
+    let yoe = (doe - doe / 1460 + doe / 36524 - doe / 146096) / 365;
+    let y = yoe as i64 + era * 400;
+    let doy = doe - (365 * yoe + yoe / 4 - yoe / 100);
+    let mp = (5 * doy + 2) / 153;
+    let d = (doy - (153 * mp + 2) / 5 + 1) as u32;
+    let m = if mp < 10 { mp + 3 } else { mp - 9 } as u32;
+    (if m <= 2 { y + 1 } else { y }, m, d)
+}
+
+fn rfc3339(t: i128) -> String {
+    let secs = t.div_euclid(NS) as i64;
+    let sub = t.rem_euclid(NS) as i64;
+    let days = secs.div_euclid(86400);
+    let sod = secs.rem_euclid(86400);
+    let (y, m, d) = civil_from_days(days);
+    let ys = if y < 0 { format!("-{:04}", -y) } else { format!("{:04}", y) };
+    format!("{}-{:02}-{:02}T{:02}:{:02}:{:02}.{:09}Z", ys, m, d, sod / 3600, (sod / 60) % 60, sod % 60, sub)
+}
+
+// ---------------------------------------------------------------- numbers
+
+fn fmt_lit(rng: &mut Rng, x: f64) -> String {
+    // a numbat literal (sign handled by the caller through parentheses)
+    if x == 0.0 || !x.is_finite() {
+        return "0".into();
+    }
+    let digits = rng.range(1, 17) as usize;
+    let s = format!("{:.*e}", digits - 1, x);
+    if let Ok(v) = s.parse::<f64>() {
+        let plain = format!("{}", v);
+        if plain.len() <= 22 && !plain.contains('e') && rng.chance(2, 3) {
+            return plain;
+        }
+    }
+    s
+}
+
+fn paren(s: &str) -> String {
+    if s.starts_with('-') {
+        format!("({})", s)
+    } else {
+        s.to_string()
+    }
+}
+
+/// exact decomposition x = m * 2^e (m odd or 0)
+fn dyadic(x: f64) -> (i128, i32) {
+    if x == 0.0 {
+        return (0, 0);
+    }
+    let bits = x.to_bits();
+    let sign = if bits >> 63 == 1 { -1i128 } else { 1 };
+    let exp = ((bits >> 52) & 0x7ff) as i32;
+    let frac = (bits & ((1u64 << 52) - 1)) as i128;
+    let (mut m, mut e) = if exp == 0 { (frac, -1074) } else { (frac | (1i128 << 52), exp - 1075) };
+    while m % 2 == 0 {
+        m /= 2;
+        e += 1;
+    }
+    (sign * m, e)
+}
+
+// ---------------------------------------------------------------- environment
+
+struct Env {
+    tmin: i128,
+    tmax: i128,
+    local_zone: String,
+    julian_epoch: i128,
+    /// dimension key -> [(unit name, size of one unit in base units)]
+    groups: Vec<(String, Vec<(String, f64)>)>,
+}
+
+fn discover_groups(imp: &mut Impl) -> Vec<(String, Vec<(String, f64)>)> {
+    let mut by_dim: BTreeMap<String, Vec<(String, f64)>> = BTreeMap::new();
+    let reps: Vec<(String, String)> = imp
+        .ctx
+        .unit_representations()
+        .map(|(name, (br, _meta))| (name.to_string(), br.to_string()))
+        .collect();
+    for (name, dim) in reps {
+        if dim == "Scalar" || !name.chars().all(|c| c.is_ascii_alphanumeric() || c == '_') {
+            continue;
+        }
+        if let R::Q(b, p) = imp.eval(&format!("1 {}", name)) {
+            let f = f64::from_bits(b);
+            // the value in the unit itself must be exactly 1 and the size positive and moderate
+            if f64::from_bits(p) == 1.0 && f.is_finite() && f > 1e-30 && f < 1e30 {
+                by_dim.entry(dim).or_default().push((name, f));
+            }
+        }
+    }
+    let mut out: Vec<(String, Vec<(String, f64)>)> = by_dim.into_iter().filter(|(_, v)| v.len() >= 3).collect();
+    for (_, v) in out.iter_mut() {
+        v.sort_by(|a, b| a.0.cmp(&b.0));
+    }
+    out
+}
+
+// ---------------------------------------------------------------- cases
+
+#[derive(Clone, Debug)]
+enum Case {
+    Temp(String, String),
+    Unix(i128, usize),
+    UnixN(i64),
+    Julian(i128),
+    JulianDays(String),
+    Fn(usize, usize, String),
+    Mixed(String, String, Vec<String>),
+}
+
+impl Case {
+    fn text(&self) -> String {
+        match self {
+            Case::Temp(k, x) => format!("temp {} {}", k, x),
+            Case::Unix(t, v) => format!("unix {} {}", t, v),
+            Case::UnixN(n) => format!("unixn {}", n),
+            Case::Julian(t) => format!("julian {}", t),
+            Case::JulianDays(x) => format!("julian-days {}", x),
+            Case::Fn(p, d, x) => format!("fn {} {} {}", p, d, x),
+            Case::Mixed(v, u, us) => format!("mixed {} {} {}", v, u, us.join(",")),
+        }
+    }
+    fn parse(line: &str) -> Option<Case> {
+        let w: Vec<&str> = line.split_whitespace().collect();
+        Some(match *w.first()? {
+            "temp" => Case::Temp(w.get(1)?.to_string(), w.get(2)?.to_string()),
+            "unix" => Case::Unix(w.get(1)?.parse().ok()?, w.get(2)?.parse().ok()?),
+            "unixn" => Case::UnixN(w.get(1)?.parse().ok()?),
+            "julian" => Case::Julian(w.get(1)?.parse().ok()?),
+            "julian-days" => Case::JulianDays(w.get(1)?.to_string()),
+            "fn" => Case::Fn(w.get(1)?.parse().ok()?, w.get(2)?.parse().ok()?, w.get(3)?.to_string()),
+            "mixed" => Case::Mixed(w.get(1)?.to_string(), w.get(2)?.to_string(), w.get(3)?.split(',').map(|s| s.to_string()).collect()),
+            _ => return None,
+        })
+    }
+}
+
+fn gen_instant(rng: &mut Rng, env: &Env) -> i128 {
+    let k = rng.below(100);
+    let span = (env.tmax - env.tmin) as u128;
+    let t = if k < 35 {
+        env.tmin + ((rng.next_u64() as u128 * (1u128 << 64) + rng.next_u64() as u128) % span) as i128
+    } else if k < 75 {
+        (rng.range(-2_208_988_800, 4_102_444_800) as i128) * NS + rng.range(0, 999_999_999) as i128
+    } else if k < 85 {
+        rng.range(-5_000_000_000, 5_000_000_000) as i128
+    } else if k < 92 {
+        env.tmin + rng.range(0, 2_000_000) as i128 * NS
+    } else {
+        env.tmax - rng.range(0, 2_000_000) as i128 * NS
+    };
+    let t = match rng.below(4) {
+        0 => t.div_euclid(NS) * NS,
+        1 => t.div_euclid(1000) * 1000,
+        _ => t,
+    };
+    t.clamp(env.tmin, env.tmax)
+}
+
+fn gen_case(rng: &mut Rng, env: &Env, out: &mut Out) -> Case {
+    let k = rng.below(100);
+    if k < 22 {
+        let kind = *rng.pick(&["c2k", "k2c", "f2k", "k2f"]);
+        out.count(&format!("kind:temp:{}", kind));
+        let x = match rng.below(6) {
+            0 => -273.15 + rng.unit_f64() * 400.0,
+            1 => rng.unit_f64() * 6000.0,
+            2 => (rng.unit_f64() - 0.5) * 2e6,
+            3 => 10f64.powf(rng.unit_f64() * 30.0 - 15.0) * if rng.chance(1, 2) { -1.0 } else { 1.0 },
+            4 => *rng.pick(&[0.0, -273.15, -459.67, 273.15, 32.0, 100.0, 212.0, -40.0, 255.3722222222222, 1e15, -1e15]),
+            _ => rng.range(-500, 5000) as f64,
+        };
+        let x = if kind.starts_with('k') { x.abs() } else { x };
+        let l = fmt_lit(rng, x.abs());
+        Case::Temp(kind.to_string(), if x < 0.0 { format!("-{}", l) } else { l })
+    } else if k < 37 {
+        out.count("kind:unix");
+        Case::Unix(gen_instant(rng, env), rng.below(4))
+    } else if k < 42 {
+        out.count("kind:unixn");
+        let n = match rng.below(3) {
+            0 => rng.range(-9_007_199_254_740_991, 9_007_199_254_740_991),
+            1 => rng.range(-4_000_000_000_000_000, 4_000_000_000_000_000),
+            _ => rng.range(-1_000_000, 1_000_000),
+        };
+        Case::UnixN(n)
+    } else if k < 52 {
+        out.count("kind:julian");
+        Case::Julian(gen_instant(rng, env))
+    } else if k < 56 {
+        out.count("kind:julian-days");
+        let x = rng.unit_f64() * 5_000_000.0;
+        Case::JulianDays(fmt_lit(rng, x))
+    } else if k < 78 {
+        let p = rng.below(PAIRS.len());
+        let dir = rng.below(2);
+        out.count(&format!("kind:fn:{}:{}", PAIRS[p].0, if dir == 0 { "inv(f(x))" } else { "f(inv(y))" }));
+        let (_, _, xlo, xhi, ylo, yhi) = PAIRS[p];
+        let (lo, hi) = if dir == 0 { (xlo, xhi) } else { (ylo, yhi) };
+        let x = if hi > 1e100 || lo.abs() > 1e100 {
+            // log-uniform magnitude for the unbounded domains
+            let lo_e = if lo > 0.0 { lo.log10() } else { -300.0 };
+            let m = 10f64.powf(lo_e + rng.unit_f64() * (hi.log10().min(300.0) - lo_e));
+            let m = m.clamp(if lo > 0.0 { lo } else { 0.0 }, hi);
+            if lo < 0.0 && rng.chance(1, 2) { -m } else { m }
+        } else if rng.chance(1, 5) {
+            // close to the ends of the domain
+            if rng.chance(1, 2) { lo + (hi - lo) * rng.unit_f64() * 1e-3 } else { hi - (hi - lo) * rng.unit_f64() * 1e-3 }
+        } else {
+            lo + (hi - lo) * rng.unit_f64()
+        };
+        let mut s = fmt_lit(rng, x.abs());
+        // the printed literal may have left the domain through rounding of the digits: clamp by re-reading
+        let v: f64 = s.parse().unwrap_or(0.0) * if x < 0.0 { -1.0 } else { 1.0 };
+        if v < lo || v > hi {
+            s = format!("{:e}", x.abs());
+        }
+        Case::Fn(p, dir, if x < 0.0 { format!("-{}", s) } else { s })
+    } else {
+        out.count("kind:mixed");
+        let (_, units) = rng.pick(&env.groups);
+        let n = rng.range(1, 5) as usize;
+        let mut us = Vec::new();
+        for _ in 0..n {
+            us.push(rng.pick(units).0.clone());
+        }
+        if rng.chance(1, 6) {
+            let dup = us[0].clone();
+            us.push(dup);
+        }
+        let (vu, vf) = rng.pick(units).clone();
+        // magnitude relative to the largest chosen unit
+        let biggest = us.iter().map(|u| units.iter().find(|x| &x.0 == u).unwrap().1).fold(0.0, f64::max);
+        let target = biggest * 10f64.powf(rng.unit_f64() * 6.0 - 2.0);
+        let x = match rng.below(8) {
+            0 => 0.0,
+            1 => (target / vf).round().max(1.0),
+            _ => target / vf,
+        };
+        let s = fmt_lit(rng, x);
+        Case::Mixed(if rng.chance(1, 3) && x != 0.0 { format!("-{}", s) } else { s }, vu, us)
+    }
+}
+
+// ---------------------------------------------------------------- running a case
+
+struct CaseResult {
+    fails: Vec<(String, String)>,
+    lines: Vec<(String, String)>,
+    nontrivial: bool,
+    buckets: Vec<String>,
+}
+
+fn ulp(x: f64) -> f64 {
+    let x = x.abs();
+    if x == 0.0 || !x.is_finite() {
+        return f64::MIN_POSITIVE;
+    }
+    f64::from_bits(x.to_bits() + 1) - x
+}
+
+fn run_case(imp: &mut Impl, env: &Env, c: &Case) -> CaseResult {
+    imp.reset();
+    let mut r = CaseResult { fails: vec![], lines: vec![], nontrivial: true, buckets: vec![] };
+    match c {
+        Case::Temp(kind, lit) => {
+            let x = paren(lit);
+            // the input as the interpreter reads it
+            let xb = match imp.eval(&x) {
+                R::Q(b, _) => b,
+                other => {
+                    r.fails.push(("C23:temp:literal".into(), format!("{} evaluates to {}", x, other.wire())));
+                    return r;
+                }
+            };
+            let xv = f64::from_bits(xb);
+            let (fwd, back, req, func_f, func_b): (String, String, &str, &str, &str) = match kind.as_str() {
+                "c2k" => (format!("from_celsius({})", x), format!("°C(from_celsius({}))", x), "fc", "from_celsius", "°C"),
+                "k2c" => (format!("°C({} K)", x), format!("from_celsius(°C({} K))", x), "tc", "°C", "from_celsius"),
+                "f2k" => (format!("from_fahrenheit({})", x), format!("°F(from_fahrenheit({}))", x), "ff", "from_fahrenheit", "°F"),
+                _ => (format!("°F({} K)", x), format!("from_fahrenheit(°F({} K))", x), "tf", "°F", "from_fahrenheit"),
+            };
+            let rf = imp.eval(&fwd);
+            r.lines.push((format!("{} {:016x}", req, xb), rf.wire()));
+            let rb = imp.eval(&back);
+            let tol = 8.0 * EPS * (xv.abs() + 460.0);
+            match rb.base() {
+                Some(v) if (v - xv).abs() <= tol => r.buckets.push(format!("temp:{}:ok", kind)),
+                _ => r.fails.push((format!("C23:temp:{}", kind), format!("{}({}({})) = {} but the input is {:e} (tolerance {:e})", func_b, func_f, x, rb.wire_value(), xv, tol))),
+            }
+            // the surface syntax goes through the same functions: `x °C -> °C`, aliases
+            let (syn, alias) = match kind.as_str() {
+                "c2k" => (format!("{} °C -> °C", x), format!("celsius(from_celsius({}))", x)),
+                "f2k" => (format!("{} °F -> °F", x), format!("fahrenheit(from_fahrenheit({}))", x)),
+                "k2c" => (format!("({} K -> °C) °C", x), format!("from_celsius(degree_celsius({} K))", x)),
+                _ => (format!("({} K -> °F) °F", x), format!("from_fahrenheit(degree_fahrenheit({} K))", x)),
+            };
+            for e in [syn, alias] {
+                let rs = imp.eval(&e);
+                if rs != rb {
+                    r.fails.push((format!("C23:temp-syntax:{}", kind), format!("`{}` gives {} but `{}` gives {}", e, rs.wire(), back, rb.wire())));
+                }
+            }
+            r.nontrivial = xv != 0.0;
+        }
+        Case::Unix(t, variant) => {
+            let tt = format!("datetime(\"{}\")", rfc3339(*t));
+            match imp.eval(&tt) {
+                R::Dt(ns, _) if ns == *t => {}
+                other => {
+                    r.fails.push(("C23:unix:construct".into(), format!("{} gives {}", tt, other.wire())));
+                    return r;
+                }
+            }
+            // correspondence for the two foreign functions
+            let rus = imp.eval(&format!("_unixtime_µs({})", tt));
+            r.lines.push((format!("unixus {}", t), rus.wire()));
+            if let R::Q(b, _) = &rus {
+                let back = imp.eval(&format!("_from_unixtime_µs(_unixtime_µs({}))", tt));
+                r.lines.push((format!("fromunixus {:016x} {}", b, env.local_zone), back.wire()));
+            }
+            let (expr, unit_ns): (String, i128) = match variant {
+                0 => (format!("from_unixtime({} -> unixtime)", tt), 1_000),
+                1 => (format!("from_unixtime_s({} -> unixtime_s)", tt), NS),
+                2 => (format!("from_unixtime_ms({} -> unixtime_ms)", tt), 1_000_000),
+                _ => (format!("from_unixtime_µs({} -> unixtime_µs)", tt), 1_000),
+            };
+            let us = (*t / 1000) as f64;
+            // the µs count is an f64 and the .nbt code converts it to unix_s and back: allow 8 ulp of the count
+            // (below 1 ns, i.e. nothing, for |t| < 10^12 µs; one whole µs from about 10^15 µs = year 2001 ± 31.7)
+            let slop = (8.0 * ulp(us) * 1000.0) as i128;
+            match imp.eval(&expr) {
+                R::Dt(ns, _) => {
+                    let d = (ns - *t).abs();
+                    if d >= unit_ns + slop && d < 2 * unit_ns + slop && *variant != 0 {
+                        // floor_in() applied to a value that the s <-> µs/ms detour left a hair below a whole number
+                        r.fails.push((format!("C23:unix:{}:floor-off-by-one", variant), format!("{} is {} ns away from the instant {}: one whole unit ({} ns) more than the truncation allows", expr, d, t, unit_ns)));
+                    } else if d >= unit_ns + slop {
+                        r.fails.push((format!("C23:unix:{}", variant), format!("{} is {} ns away from the instant {} (allowed: below {} ns)", expr, d, t, unit_ns + slop)));
+                    } else if slop == 0 && (*variant == 0 || *variant == 3) && ns != (*t / 1000) * 1000 {
+                        r.fails.push((format!("C23:unix:{}", variant), format!("{} = {} is not {} truncated to microseconds", expr, ns, t)));
+                    } else {
+                        r.buckets.push(format!("unix:{}:ok", variant));
+                    }
+                }
+                R::Err(e) if e == "dt" && ((env.tmax - *t) < unit_ns + slop + 1000 || (*t - env.tmin) < unit_ns + slop + 1000) => {
+                    // the f64 count of an instant at the very end of the range rounds to a count outside the range
+                    r.buckets.push(format!("unix:{}:edge-of-range-error", variant));
+                }
+                other => r.fails.push((format!("C23:unix:{}", variant), format!("{} gives {}", expr, other.wire()))),
+            }
+        }
+        Case::UnixN(n) => {
+            let expr = format!("unixtime_µs(from_unixtime_µs({}))", paren(&n.to_string()));
+            let in_range = (*n as i128) * 1000 >= env.tmin && (*n as i128) * 1000 <= env.tmax;
+            match imp.eval(&expr) {
+                R::Q(b, _) if in_range => {
+                    let got = f64::from_bits(b);
+                    if (got - *n as f64).abs() <= 4.0 * ulp(*n as f64) {
+                        r.buckets.push("unixn:ok".into());
+                    } else if (got - *n as f64).abs() <= 1.0 {
+                        r.fails.push(("C23:unixn:floor-off-by-one".into(), format!("{} = {} (off by one whole microsecond; 4 ulp of the input are {:e})", expr, got, 4.0 * ulp(*n as f64))));
+                    } else if got != *n as f64 {
+                        r.fails.push(("C23:unixn".into(), format!("{} = {:e}", expr, f64::from_bits(b))));
+                    } else {
+                        r.buckets.push("unixn:ok".into());
+                    }
+                }
+                R::Err(e) if !in_range && e == "dt" => r.buckets.push("unixn:out-of-range".into()),
+                other => r.fails.push(("C23:unixn".into(), format!("{} gives {}", expr, other.wire()))),
+            }
+            let rf = imp.eval(&format!("_from_unixtime_µs({})", paren(&n.to_string())));
+            r.lines.push((format!("fromunixus {:016x} {}", (*n as f64).to_bits(), env.local_zone), rf.wire()));
+        }
+        Case::Julian(t) => {
+            let tt = format!("datetime(\"{}\")", rfc3339(*t));
+            let jd = imp.eval(&format!("julian_date({})", tt));
+            r.lines.push((format!("diff {} {}", t, env.julian_epoch), jd.wire()));
+            let jds = match jd.base() {
+                Some(v) => v,
+                None => {
+                    r.fails.push(("C23:julian".into(), format!("julian_date({}) gives {}", tt, jd.wire())));
+                    return r;
+                }
+            };
+            let back = imp.eval(&format!("from_julian_date(julian_date({}))", tt));
+            r.lines.push((format!("add {} UTC {:016x}", env.julian_epoch, jds.to_bits()), back.wire()));
+            let tol = (2.0 * ulp(jds) * 1e9) as i128 + 1;
+            match &back {
+                R::Dt(ns, _) if (ns - *t).abs() <= tol => r.buckets.push("julian:ok".into()),
+                // within the f64 resolution of the end of the range the rounded sum may lie outside the range
+                R::Err(e) if e == "dt" && ((env.tmax - *t) <= tol || (*t - env.tmin) <= tol) => r.buckets.push("julian:edge-of-range-error".into()),
+                other => r.fails.push(("C23:julian".into(), format!("from_julian_date(julian_date(t)) gives {} for t = {} ns (tolerance {} ns)", other.wire(), t, tol))),
+            }
+            // and the value itself is the distance to the epoch
+            let want = (*t - env.julian_epoch) as f64 / 1e9;
+            if (jds - want).abs() > 2.0 * ulp(want) {
+                r.fails.push(("C23:julian-value".into(), format!("julian_date = {:e} s, expected {:e} s", jds, want)));
+            }
+        }
+        Case::JulianDays(lit) => {
+            let e = format!("julian_date(from_julian_date({} days))", lit);
+            let x = imp.eval(&format!("{} days", lit)).base().unwrap_or(f64::NAN);
+            match imp.eval(&e).base() {
+                Some(v) if (v - x).abs() <= 4.0 * ulp(x) + 1e-9 => r.buckets.push("julian-days:ok".into()),
+                other => r.fails.push(("C23:julian-days".into(), format!("{} = {:?} s but the input is {:e} s", e, other, x))),
+            }
+        }
+        Case::Fn(p, dir, lit) => {
+            let (f, g, _, _, _, _) = PAIRS[*p % PAIRS.len()];
+            let x = paren(lit);
+            let xv = match imp.eval(&x).base() {
+                Some(v) => v,
+                None => {
+                    r.fails.push(("C23:fn:literal".into(), format!("{} is not a number", x)));
+                    return r;
+                }
+            };
+            let e = if *dir == 0 { format!("{}({}({}))", g, f, x) } else { format!("{}({}({}))", f, g, x) };
+            let tol = 1e-9 * xv.abs().max(1.0);
+            match imp.eval(&e).base() {
+                Some(v) if (v - xv).abs() <= tol => r.buckets.push("fn:ok".into()),
+                other => r.fails.push((format!("C23:fn:{}:{}", f, dir), format!("{} = {:?} but the argument is {:e} (tolerance {:e})", e, other, xv, tol))),
+            }
+        }
+        Case::Mixed(vlit, vunit, units) => {
+            let v = format!("({} {})", vlit, vunit);
+            let list = format!("[{}]", units.join(", "));
+            let vb = match imp.eval(&v) {
+                R::Q(b, _) => f64::from_bits(b),
+                other => {
+                    r.fails.push(("C23:mixed:value".into(), format!("{} gives {}", v, other.wire())));
+                    return r;
+                }
+            };
+            let expr = format!("unit_list({}, {})", list, v);
+            let parts = match imp.eval(&expr) {
+                R::L(l) => l,
+                other => {
+                    r.fails.push(("C23:mixed:result".into(), format!("{} gives {}", expr, other.wire())));
+                    return r;
+                }
+            };
+            let n = parts.len();
+            if n == 0 || n > units.len() {
+                r.fails.push(("C23:mixed:length".into(), format!("{} has {} parts for {} units", expr, n, units.len())));
+                return r;
+            }
+            let sum: f64 = parts.iter().map(|p| f64::from_bits(p.0)).sum();
+            let tol = 8.0 * (n as f64) * EPS * vb.abs();
+            if !((sum - vb).abs() <= tol) {
+                r.fails.push(("C23:mixed:sum".into(), format!("{}: the parts add up to {:e} but the value is {:e} (base units; tolerance {:e})", expr, sum, vb, tol)));
+            }
+            for (i, p) in parts.iter().enumerate() {
+                let pv = f64::from_bits(p.1);
+                if i + 1 < n && pv.fract() != 0.0 {
+                    r.fails.push(("C23:mixed:whole".into(), format!("{}: part {} is {:e} {} — not a whole number", expr, i, pv, p.2)));
+                }
+            }
+            r.buckets.push(format!("mixed:parts:{}", n));
+            r.nontrivial = vb != 0.0;
+            // exact model: the cleaned unit list as the implementation sees it
+            if let R::L(clean) = imp.eval(&format!("_clean_units({})", list)) {
+                let us: Vec<f64> = clean.iter().map(|c| f64::from_bits(c.0)).collect();
+                // the value in base units as the implementation computed it (one rounding of value × unit size);
+                // the 1-ulp difference to the exact product is far inside the robustness margin below
+                let mut robust = us.len() == n && us.iter().all(|u| *u > 0.0);
+                let mut rem = vb;
+                if robust && vb != 0.0 {
+                    for u in us.iter().take(n - 1) {
+                        let q = rem / u;
+                        // f64 noise of the implementation in this quotient is about eps * |V| / u
+                        let thr = 1e-9 * (vb.abs() / u).max(1.0);
+                        if thr >= 0.25 || (q - q.round()).abs() < thr || q.abs() > 1e15 {
+                            robust = false;
+                            break;
+                        }
+                        rem -= q.trunc() * u;
+                    }
+                }
+                if robust {
+                    let (vm, ve) = dyadic(vb);
+                    let mut req = format!("mixed {} {} 1 0", vm, ve);
+                    for u in &us {
+                        let (m, e) = dyadic(*u);
+                        req.push_str(&format!(" {} {}", m, e));
+                    }
+                    let counts: Vec<String> = parts.iter().take(n - 1).map(|p| format!("{}", f64::from_bits(p.1) as i128)).collect();
+                    r.lines.push((req, format!("ok {}", counts.join(" ")).trim_end().to_string()));
+                    r.buckets.push("mixed:model-line".into());
+                } else {
+                    r.buckets.push("mixed:near-integer-quotient(no model line)".into());
+                }
+            }
+        }
+    }
+    r
+}
+
+impl R {
+    fn wire_value(&self) -> String {
+        match self.base() {
+            Some(v) => format!("{:e}", v),
+            None => self.wire(),
+        }
+    }
+}
 
 fn main() {
     let args = Args::parse();
     if args.extra.contains_key("dump-ast") {
         for (module, names) in ITEMS {
-            match numbat::verif::c23::module_items_sexpr(module, names) {
+            match hook23::module_items_sexpr(module, names) {
                 Ok(items) => {
                     for (n, s) in items {
                         println!("{}\t{}\t{}", module, n, s);
@@ -25,4 +684,76 @@ fn main() {
         }
         return;
     }
+    let mut out = Out::new(&args);
+    let mut imp = Impl::new();
+    let (tmin, tmax) = hook19::timestamp_range_ns();
+    let local_zone = match imp.eval("get_local_timezone()") {
+        R::S(s) => s,
+        _ => "UTC".into(),
+    };
+    let julian_epoch = match imp.eval("_julian_epoch") {
+        R::Dt(ns, _) => ns,
+        _ => panic!("_julian_epoch"),
+    };
+    let groups = discover_groups(&mut imp);
+    assert!(!groups.is_empty());
+    let env = Env { tmin, tmax, local_zone, julian_epoch, groups };
+    out.extra.insert(
+        "unit_groups".into(),
+        env.groups.iter().map(|(d, v)| format!("{}:{}", d, v.len())).collect::<Vec<_>>().join(" "),
+    );
+    out.extra.insert("local_zone".into(), env.local_zone.clone());
+    out.rule = "cases: 22% temperature (°C/°F/K, both directions; physical range, ±1e6, log-uniform 1e-15…1e15, fixed points), \
+                15% Unix time round trips over the whole instant range in four variants, 5% integer µs counts, 10% Julian date \
+                of random instants, 4% Julian days, 22% inverse pairs sin/asin cos/acos tan/atan sinh/asinh cosh/acosh \
+                tanh/atanh exp/ln exp/log in both orders on their principal domains (20% near the ends), 22% unit_list with \
+                1–6 units (duplicates allowed) drawn from one dimension group of the prelude (every group with ≥ 3 plain \
+                units) and a value of 1–17 digits in a unit of that group, either sign, also 0 and whole multiples. \
+                distinct = distinct case text; non-trivial = the input value is non-zero."
+        .into();
+
+    let mut cases: Vec<Case> = Vec::new();
+    if let Some(dir) = args.extra.get("corpus") {
+        let mut files: Vec<_> = std::fs::read_dir(dir).map(|r| r.flatten().map(|e| e.path()).collect()).unwrap_or_default();
+        files.sort();
+        for f in files {
+            for l in read_lines(&f) {
+                if let Some(c) = Case::parse(&l) {
+                    cases.push(c);
+                }
+            }
+        }
+    }
+    if let Some(rp) = &args.replay {
+        for l in read_lines(rp) {
+            if let Some(c) = Case::parse(&l) {
+                cases.push(c);
+            }
+        }
+    } else {
+        let n = args.count(3000, 100_000);
+        let mut rng = Rng::new(args.seed);
+        for _ in 0..n {
+            let c = gen_case(&mut rng, &env, &mut out);
+            cases.push(c);
+        }
+    }
+    let mut reported = std::collections::BTreeSet::new();
+    for c in &cases {
+        let res = run_case(&mut imp, &env, c);
+        out.case(&c.text(), res.nontrivial);
+        for b in &res.buckets {
+            out.count(b);
+        }
+        for (rq, ans) in &res.lines {
+            out.line(rq, ans);
+        }
+        for (key, what) in &res.fails {
+            out.count(&format!("fail:{}", key));
+            if reported.insert(key.clone()) {
+                out.oracle_fail(key, &c.text(), what);
+            }
+        }
+    }
+    out.finish();
 }
